@@ -340,3 +340,18 @@ def simp_top(t):
             return t
         t = r
     return t
+
+
+def alpha(t):
+    """Alpha-normal form: bound variables, loop ids and accumulator names renumbered by first occurrence (bottom-up), so
+    that two summaries of the same computation obtained in different inlining contexts compare equal."""
+    ids, loops = {}, {}
+    def f(x):
+        if x[0] == 'bvar':
+            return ('bvar', ids.setdefault(x[1], len(ids)), 'v', x[3])
+        if x[0] in ('carried', 'prefix'):
+            return (x[0], 'c', loops.setdefault(x[2], len(loops))) + tuple(x[3:])
+        if x[0] == 'accum':
+            return x[:3] + ('acc',) + tuple(x[4:])
+        return None
+    return subst(t, f)
